@@ -26,6 +26,23 @@ if TYPE_CHECKING:
 
 logger = logging.getLogger(__name__)
 
+# Assets and associations are python_jsonschema_objects instances that refer
+# to each other (asset.associations, association fields). Comparing them by
+# value, which is what `in`, `==` and list.remove() do, walks that cyclic
+# structure and can end in a RecursionError. The two helpers below look for
+# the object itself instead.
+def _contains(items, item) -> bool:
+    """Return True if the item itself (not just an equal one) is in items"""
+    return any(other is item for other in items)
+
+def _remove(items, item) -> None:
+    """Remove the first occurrence of the item itself from items"""
+    for index, other in enumerate(items):
+        if other is item:
+            del items[index]
+            return
+    raise ValueError('Item to remove is not in the list.')
+
 @dataclass
 class AttackerAttachment:
     """Used to attach attackers to attack step entry points of assets"""
@@ -53,7 +70,7 @@ class AttackerAttachment:
         None, otherwise.
         """
         return next((ep_tuple for ep_tuple in self.entry_points
-                                 if ep_tuple[0] == asset), None)
+                                 if ep_tuple[0] is asset), None)
 
 
     def add_entry_point(
@@ -120,7 +137,7 @@ class AttackerAttachment:
                 )
 
             if not entry_point_tuple[1]:
-                self.entry_points.remove(entry_point_tuple)
+                _remove(self.entry_points, entry_point_tuple)
         else:
             logger.warning(
                 f'Failed to find entry points on asset "{asset.name}" '
@@ -224,7 +241,7 @@ class Model():
             'Remove "%s"(%d) from model "%s".',
             asset.name, asset.id, self.name
         )
-        if asset not in self.assets:
+        if not _contains(self.assets, asset):
             raise LookupError(
                 f'Asset "{asset.name}"({asset.id}) is not part'
                 f' of model"{self.name}".'
@@ -234,16 +251,16 @@ class Model():
         for association in list(asset.associations):
             # An asset on both sides of a reflexive association lists it
             # twice, the first pass already took care of it.
-            if association in asset.associations:
+            if _contains(asset.associations, association):
                 self.remove_asset_from_association(asset, association)
 
         # Also remove all of the entry points
         for attacker in self.attackers:
             entry_point_tuple = attacker.get_entry_point_tuple(asset)
             if entry_point_tuple:
-                attacker.entry_points.remove(entry_point_tuple)
+                _remove(attacker.entry_points, entry_point_tuple)
 
-        self.assets.remove(asset)
+        _remove(self.assets, asset)
 
         # The id and name can be used again
         self.asset_ids.discard(asset.id)
@@ -267,12 +284,12 @@ class Model():
             asset.name, asset.id, type(association)
         )
 
-        if asset not in self.assets:
+        if not _contains(self.assets, asset):
             raise LookupError(
                 f'Asset "{asset.name}"({asset.id}) is not part of model '
                 f'"{self.name}".'
             )
-        if association not in self.associations:
+        if not _contains(self.associations, association):
             raise LookupError(
                 f'Association is not part of model "{self.name}".'
             )
@@ -283,17 +300,17 @@ class Model():
         right_field = getattr(association, right_field_name)
         found = False
         for field in [left_field, right_field]:
-            if asset in field:
+            if _contains(field, asset):
                 found = True
                 if len(field) == 1:
                     # There are no other assets on this side,
                     # so we should remove the entire association.
                     self.remove_association(association)
                     return
-                field.remove(asset)
+                _remove(field, asset)
                 # The asset is no longer part of the association
                 assocs = list(asset.associations)
-                assocs.remove(association)
+                _remove(assocs, association)
                 asset.associations = assocs
 
         if not found:
@@ -315,7 +332,7 @@ class Model():
         )
 
         # Check if identical association already exists
-        if association in associations_same_type:
+        if _contains(associations_same_type, association):
             raise DuplicateModelAssociationError(
                 f"Identical association {association_type} already exists"
             )
@@ -397,7 +414,7 @@ class Model():
         association     - the association to remove from the model
         """
 
-        if association not in self.associations:
+        if not _contains(self.associations, association):
             raise LookupError(
                 f'Association is not part of model "{self.name}".'
             )
@@ -409,25 +426,23 @@ class Model():
 
         for asset in left_field:
             assocs = list(asset.associations)
-            assocs.remove(association)
+            _remove(assocs, association)
             asset.associations = assocs
 
         for asset in right_field:
             # In fringe cases we may have reflexive associations where the
             # association was already removed when processing the left field
             # assets therefore we have to check if it is still in the list.
-            if association in asset.associations:
+            if _contains(asset.associations, association):
                 assocs = list(asset.associations)
-                assocs.remove(association)
+                _remove(assocs, association)
                 asset.associations = assocs
 
-        self.associations.remove(association)
+        _remove(self.associations, association)
 
         # Remove association from type->association mapping
         association_type = association.__class__.__name__
-        self._type_to_association[association_type].remove(
-            association
-        )
+        _remove(self._type_to_association[association_type], association)
         # Remove type from type->association mapping if mapping empty
         if len(self._type_to_association[association_type]) == 0:
             del self._type_to_association[association_type]
@@ -642,7 +657,8 @@ class Model():
                     (left_field_name, right_field_name),
                     (right_field_name, left_field_name)):
                 if opposite_field_name != field_name or \
-                        asset not in getattr(association, own_field_name):
+                        not _contains(
+                            getattr(association, own_field_name), asset):
                     continue
                 for other in getattr(association, opposite_field_name):
                     if not any(other is known for known in associated_assets):
